@@ -371,7 +371,7 @@ func specParse(n *Node, cfg SpecCfg, in any, dst reflect.Value, path string, loc
 		}
 		if !ok {
 			switch reflect.ValueOf(in).Kind() {
-			case reflect.Struct, reflect.Pointer, reflect.Map:
+			case reflect.Struct, reflect.Pointer, reflect.Map: // (time.Time, pointers, other map types)
 				// Go structs (time.Time is one), pointers and other map types are
 				// input forms whose treatment this specification does not model
 				out.unknown("struct schema given %T", in)
@@ -471,6 +471,8 @@ func specParse(n *Node, cfg SpecCfg, in any, dst reflect.Value, path string, loc
 // structGetter accepts the input forms a struct schema is documented to take:
 // nil (every field absent), map[string]T for T in any/string/int/float64/bool,
 // and pointers to those.
+func StructGetter(in any) (func(string) any, bool) { return structGetter(in) }
+
 func structGetter(in any) (func(string) any, bool) {
 	switch m := in.(type) {
 	case nil:
@@ -495,6 +497,18 @@ func structGetter(in any) (func(string) any, bool) {
 			return func(string) any { return nil }, true
 		}
 		return structGetter(*m)
+	case time.Time:
+		return nil, false
+	}
+	// a Go struct as data: the value of the exported field named like the key; anything else is absent
+	if rv := reflect.ValueOf(in); rv.Kind() == reflect.Struct {
+		return func(k string) any {
+			sf, ok := rv.Type().FieldByName(k)
+			if !ok || !sf.IsExported() || len(sf.Index) != 1 {
+				return nil
+			}
+			return rv.Field(sf.Index[0]).Interface()
+		}, true
 	}
 	return nil, false
 }
